@@ -95,6 +95,8 @@ def run_c11(ctx):
         vg = ["valgrind", "--tool=memcheck", "--leak-check=no", "--error-exitcode=78", "--track-origins=no", "-q"]
         ctx.run_sanitized(b, "C11", extra_args=["--scale", "6", "--no-proofs"], env_extra={"RAYON_NUM_THREADS": "1"},
                           tag="C11-lockstep-memcheck", kind="memcheck", wrapper=vg, timeout=7200)
+        # Miri on the only unsafe code it can reach (ffi::hash buffer handling) + pure codecs/operators
+        ctx.run_miri(16)
 
 
 def run_c18(ctx):
